@@ -26,6 +26,7 @@ def gen_desc(verif_seed: int, i: int, tier: str = "quick") -> dict:
         p_header_param=0.15,
         p_nested=0.5,
         p_suffix_link=0.5,
+        cross_delete=True,
     )
     # identifiers are handed out again after a delete in a third of the universes (another tree of the same scenario then
     # meets the same path + identifier values without any delete of its own)
